@@ -17,11 +17,23 @@ children), ops:
   ['pass', now, texp, tbs, fexp, fbs, thist, fhist]   one pass of the real service loop (sproc.trace cleanup) with these options
   ['prune', 't'|'f'|'s', max, mode]     _zk.cleanup via cleanup_*_history(zk, max)
   ['dl', 't'|'s', object]               download_batch(object) from every snapshot
+  ['read', 'a'|'s', object, oseed]      the real trace READER: AppTraceLoop / ServerTraceLoop(zk, object, handler)
+                                        .run(snapshot=True); get_children(<history>) lists the snapshots in the
+                                        order `oseed` selects (0 = by name = sequence order, 1 = reversed,
+                                        n >= 2 = shuffled by Random(n)); the order is passed on the op line.
+                                        `read` ops directly after a phase op with mode 'all' are ALSO run on the
+                                        cut states of that phase (snapshot uploaded, deletes not finished).
 mode: 'all' = the phase is run from the same state once for EVERY cut point k = 0..W-1 (the write
 hook stops the client before write k+1; W = writes of the complete run), after cuts with
 k % recover == 0 the phase is re-run to completion on the cut state (restart after the crash), and
 finally it is run to completion, which is the state the next op sees; an int k = that single cut;
 None = run to completion.
+
+The reader is compared at the `_process_event` boundary (the (timestamp, source, type, data) sequence
+TraceLoop hands over, its `_last_event`, and the exception that ended the read) with Lean
+`Archive.readTrace` / `readServerTrace` on the model state.  No monitor clause: C18 is about what the
+archiver leaves behind; where the reader's own hypotheses (listing order, timestamp strings) fail, model
+and code must still agree, nothing more.
 
 After every (partial) run the whole tree is dumped (live events, finished records, scheduled,
 every snapshot decoded with sqlite3/zlib, row by row) and compared with the model's state after
@@ -48,7 +60,9 @@ RULE = {
     'C18': 'random populations (0-60 app trace events over 1-4 shards, timestamps within +-50 s of '
            'now-expiry incl. the boundary and equal-valued spellings, scheduled/unscheduled instances, '
            'finished records, server trace events, batch sizes 1-10) followed by 2-7 archiver phases '
-           '(cleanup_trace, cleanup_finished, cleanup_server_trace, history pruning, downloads) with '
+           '(cleanup_trace, cleanup_finished, cleanup_server_trace, history pruning, downloads, trace READS of '
+           'scheduled and unscheduled instances / servers with the snapshot listing in sequence, reversed or '
+           'shuffled order, also on the cut states; 12 % with an event name of 4 or 6 fields) with '
            'events published and instances (un)scheduled in between; every phase is cut at EVERY write '
            'index and restarted after a subset of the cuts; 15 % malformed stream (bad event names / '
            'timestamps, batch size <= 0, negative max_count, foreign history nodes). non-trivial = some '
@@ -223,6 +237,49 @@ def gen_case(rng, pid, tier):
         fbs = prng.choice([b for b in (1, 2, 3, 4) if b != tbs])
         ops.insert(prng.randrange(len(ops) - 1, len(ops) + 1),
                    ['pass', _decstr(nowms), texp, tbs, fexp, fbs, prng.choice([1, 2, 5]), prng.choice([1, 3, 6])])
+    # trace reads (side stream: the main stream of the generator is unchanged)
+    rrng = random.Random('read' + repr(rng.getstate()[1][:4]))
+
+    def oseed():
+        return rrng.choice([0, 0, 0, 1, 2 + rrng.randrange(1000), 2 + rrng.randrange(1000)])
+
+    with_events = sorted(set(o[3].split(',')[0] for o in ops if o[0] == 'ev' and o[1] == 'a') & set(insts))
+
+    if with_events and rrng.random() < 0.12:
+        # an event name the archiver accepts (it splits at the first two commas only) and the reader cannot unpack
+        inst = rrng.choice(with_events)
+        ts = rrng.choice([o[3].split(',')[1] for o in ops if o[0] == 'ev' and o[3].startswith(inst + ',')])
+        ops.insert(1, ['ev', 'a', shard_of(inst), '%s,%s,%s' % (inst, ts, rrng.choice(['h1,pending,a,b', 'h1,pending']))])
+
+    if with_events and rrng.random() < 0.2:
+        # same timestamp string, sources 'h1' / 'h1#x': as TUPLES 'h1' sorts first, as whole names
+        # ('h1,' vs 'h1#') second - and same-timestamp events are the ones the dedup can repeat
+        inst = rrng.choice(with_events)
+        ts = rrng.choice([o[3].split(',')[1] for o in ops if o[0] == 'ev' and o[3].startswith(inst + ',')])
+        for src in ('h1', 'h1#x'):
+            ops.insert(1, ['ev', 'a', shard_of(inst), '%s,%s,%s,pending,x' % (inst, ts, src)])
+
+    def read_app():
+        pool = with_events if with_events and rrng.random() < 0.8 else insts
+        return ['read', 'a', rrng.choice(pool), oseed()]
+
+    out = []
+    for op in ops:
+        out.append(op)
+        if op[0] == 'trace' and rrng.random() < 0.75:
+            out.append(read_app())
+            if rrng.random() < 0.3:
+                out.append(read_app())
+        elif op[0] == 'server' and servers and rrng.random() < 0.6:
+            out.append(['read', 's', rrng.choice(servers), oseed()])
+        elif op[0] == 'prune' and op[1] in 'ts' and rrng.random() < 0.5:
+            out.append(read_app() if op[1] == 't' or not servers else ['read', 's', rrng.choice(servers), oseed()])
+        elif op[0] == 'pass' and rrng.random() < 0.8:
+            out.append(read_app())
+            if servers:
+                out.append(['read', 's', rrng.choice(servers), oseed()])
+    out.append(read_app())
+    ops = out
     return {'recover': rng.choice([1, 1, 2, 3, 5]), 'salt': rng.randrange(1000), 'ops': ops}
 
 
@@ -294,7 +351,10 @@ class _Env:
         from treadmill import zknamespace as z
         from treadmill.trace.app import zk as appzk
         from treadmill.trace.server import zk as srvzk
-        self.z, self.appzk, self.srvzk = z, appzk, srvzk
+        from treadmill import utils
+        self.z, self.appzk, self.srvzk, self.utils = z, appzk, srvzk, utils
+        self.loop = {'a': appzk.AppTraceLoop, 's': srvzk.ServerTraceLoop}
+        self.shard_path = {'a': z.path.trace, 's': z.path.server_trace}
         self.root = {'a': z.TRACE, 's': z.SERVER_TRACE}
         self.hist = {'t': z.TRACE_HISTORY, 'f': z.FINISHED_HISTORY, 's': z.SERVER_TRACE_HISTORY}
         self.table = {'t': appzk.TRACE_SOW_TABLE, 'f': 'finished', 's': srvzk.SERVER_TRACE_SOW_TABLE}
@@ -466,6 +526,97 @@ class _PassDone(Exception):
     """The service loop reached its sleep (or one of its steps failed): one pass is over."""
 
 
+class _Exit(BaseException):
+    """utils.sys_exit was called (exit_on_unhandled after an exception in a watch callback)."""
+
+
+def _raise_exit(_code):
+    raise _Exit()
+
+
+def _read_order(names, oseed):
+    """The order in which get_children lists the history directory for this read."""
+    order = sorted(names)
+    if oseed == 1:
+        order.reverse()
+    elif oseed >= 2:
+        random.Random(oseed).shuffle(order)
+    return order
+
+
+def _show_event(ev):
+    return ','.join(ev[1:])
+
+
+def _do_read(env, run, state, rop):
+    """Run the real reader on `state` (not modified); record the op line and what TraceLoop delivered."""
+    _k, rk, obj, oseed = rop
+    hk = env.hist_of_root[rk]
+    hroot = env.hist[hk]
+    names = sorted(state.get_children(hroot))
+    order = _read_order(names, oseed)
+    shard = env.shard_path[rk](obj, 'x').split('/')[2]
+    delivered = []
+    raised = []
+
+    class _Handler:
+        @staticmethod
+        def process(_event, _ctx):
+            return None
+
+    loop = env.loop[rk](state, obj, _Handler())
+
+    def process_event(object_name, timestamp, source, event_type, event_data, _ctx):
+        delivered.append((object_name, timestamp, source, event_type, event_data))
+    loop._process_event = process_event           # pylint: disable=protected-access
+    real_process_events = loop._process_events    # pylint: disable=protected-access
+
+    def process_events(events, ctx):
+        try:
+            return real_process_events(events, ctx)
+        except Exception as err:                  # pylint: disable=broad-except
+            raised.append(type(err).__name__)
+            raise
+    loop._process_events = process_events         # pylint: disable=protected-access
+
+    state.list_order = {hroot: order}
+    try:
+        with mock.patch.object(env.utils, 'sys_exit', _raise_exit):
+            loop.run(snapshot=True)
+        st = 'ok'
+    except _Exit:
+        st = raised[0] if raised else 'exit'
+    except ValueError:
+        st = 'ValueError'
+    except (zlib.error, sqlite3.Error):
+        st = 'undecodable'
+    finally:
+        state.list_order = {}
+    last = loop._last_event                       # pylint: disable=protected-access
+    run.op('read %s %s %s %s' % (rk, obj, shard, ';'.join(order) or '-'),
+           'read st=%s out=%s last=%s' % (st, ';'.join(_show_event(e) for e in delivered) or '-',
+                                         _show_event(last) if last else '-'))
+    # histogram
+    run.tags.add('read')
+    if len(set(delivered)) < len(delivered):
+        run.tags.add('read-duplicates')
+    scheduled = rk == 'a' and state.node(env.z.SCHEDULED + '/' + obj) is not None
+    run.tags.add('read-scheduled' if scheduled else 'read-unscheduled')
+    if not scheduled and len(names) > 1:
+        run.tags.add('read-multi-snapshot')
+        if order != names:
+            run.tags.add('read-out-of-order')
+    if st != 'ok':
+        run.tags.add('read-' + st)
+    if delivered:
+        run.tags.add('read-nonempty')
+    shard_node = state.node(env.root[rk] + '/' + shard)
+    live = set(n for n in (shard_node.children if shard_node is not None else ()) if n.startswith(obj + ','))
+    if st == 'ok' and not live <= set(','.join(e) for e in delivered):
+        run.tags.add('read-live-event-not-delivered')
+    return delivered
+
+
 def _exec(env, zk, phase, call=None):
     """Run one archiver function on `zk`; -> 'ok' | 'cut' | 'ValueError' | 'runaway'.
     `call`: the call as the service loop made it (run instead of the one `phase` describes)."""
@@ -498,6 +649,19 @@ def _exec(env, zk, phase, call=None):
         return 'runaway'
     except ValueError:
         return 'ValueError'
+
+
+def _read_ok(env, rop):
+    """A well-formed read op whose object has a shard (z.path.trace raises for a non-numeric instance id)."""
+    if len(rop) != 4 or rop[1] not in ('a', 's') or not isinstance(rop[2], str) or not isinstance(rop[3], int):
+        return False
+    if not rop[2] or any(c in rop[2] for c in ' ,;/*?[\'"') or rop[3] < 0:
+        return False
+    try:
+        env.shard_path[rop[1]](rop[2], 'x')
+    except ValueError:
+        return False
+    return True
 
 
 def _line(phase, cut):
@@ -573,9 +737,22 @@ def run_impl(case, pid):
             run.hits.extend(hits[:max(0, 25 - len(run.hits))])
             return st, before, after
 
-        for op in case['ops']:
+        all_ops = case['ops']
+        for op_index, op in enumerate(all_ops):
             k = op[0]
-            if k == 'sched':
+            # `read` ops directly after this op: also run on the cut states of an enumerated phase
+            next_reads = []
+            for nxt in all_ops[op_index + 1:]:
+                if nxt[0] != 'read' or not _read_ok(env, nxt):
+                    break
+                next_reads.append(nxt)
+            if k == 'read':
+                if _read_ok(env, op):
+                    _do_read(env, run, zk, op)
+                    stats['reads'] = stats.get('reads', 0) + 1
+                else:
+                    run.op('bad-op', None)
+            elif k == 'sched':
                 for n in zk.get_children(z.SCHEDULED):
                     zk.delete(z.SCHEDULED + '/' + n)
                 for n in op[1]:
@@ -701,6 +878,10 @@ def run_impl(case, pid):
                     run.op('restore', 'ok')
                     st, _b, _a = one_run(cur, phase, cut)
                     stats['cuts'] += 1
+                    if cut < 8 or cut % 3 == 0:
+                        for rop in next_reads:
+                            _do_read(env, run, cur, rop)
+                            stats['cut-reads'] = stats.get('cut-reads', 0) + 1
                     if st != 'cut':
                         run.hits.append(fw.Hit(clause='harness-cut-missed', call_site=SITE[k],
                                                detail='cut %d of %d did not stop the run' % (cut, total)))
@@ -760,6 +941,8 @@ def run_impl(case, pid):
                                   '10-49' if stats['cuts'] < 50 else '50+'))
         if stats['restarts']:
             run.tags.add('restart')
+        if stats.get('cut-reads'):
+            run.tags.add('read-on-cut-state')
         if any(o[0] == 'junk' for o in case['ops']):
             run.tags.add('junk-node')
         run.nontrivial = nontrivial
